@@ -5,7 +5,7 @@
    under which key the result verifies, the layout of the 128-byte form, length / structure / HRP checks of every encoding,
    the derivation wrappers, and the EMIP-3 container.  Only statements here; proofs are in Crypto/*Proofs.v. *)
 From CSL Require Import Base.Prelude Base.Hex Cbor.Head Crypto.Iface Crypto.Wrappers Crypto.WrappersProofs
-  Crypto.Emip3 Crypto.Emip3Proofs Crypto.Toy.
+  Crypto.Emip3 Crypto.Emip3Proofs Crypto.Toy Crypto.Obs Crypto.ObsProofs.
 Local Open Scope N_scope.
 
 (* the laws are jointly satisfiable (by a cryptographically worthless instance): no theorem below is vacuous *)
@@ -182,6 +182,26 @@ Proof.
   exact (emip3_rejects_modified_tag P true tp ts tn td pw salt nonce data tag' LR LS LA LP Hp Hw Hne).
 Qed.
 Print Assumptions C12_emip3_rejects_modified_tag.
+
+(* ---- the judge used by the correspondence run: on EVERY case (all inputs) the model's own observation contains no panic and
+        satisfies the proved part [stmt] of the property; the judge can then fail only in its TESTED part [stmt_tested]
+        (verification under another message / key, structure check of derived keys), which no functional law gives ---- *)
+Theorem C12_model_satisfies_judge : forall P : prims,
+  law_shapes P /\ law_sign_normal P /\ law_sign_extended P /\ law_xpub_layout P /\ law_soft_derivation P /\
+  law_hard_refused P /\ law_normalize3 P /\ law_pbkdf2_bip39_shape P /\
+  law_aead_roundtrip P /\ law_aead_shapes P /\ law_aead_authentic P /\ law_aead_plain_by_ct P /\
+  law_base32_roundtrip P /\ law_bech32_roundtrip P ->
+  forall c, case_wf c ->
+  has_panic (model_obs P c) = false /\ stmt P c (model_obs P c) = true /\
+  judge P c (model_obs P c) = if stmt_tested c (model_obs P c) then Holds else FailsUnknown.
+Proof.
+  intros P L c H. destruct (model_satisfies_stmt P L c H) as [A B]. exact (conj A (conj B (judge_on_model P L c H))).
+Qed.
+Print Assumptions C12_model_satisfies_judge.
+Example C12_case_wf_nontrivial : case_wf (CSign 1 (repeat 7 64) [1; 2] [3] (repeat 8 64)) /\ case_wf (CX128 toy_root).
+Proof.
+  split; [split|exact (proj2 (proj1 toy_root_ok))]; apply Forall_forall; intros x Hx; apply repeat_spec in Hx; subst; reflexivity.
+Qed.
 
 (* pinned shapes (cannot be weakened silently) *)
 Check (eq_refl : METADATA_SIZE = 60).
